@@ -265,8 +265,9 @@ theorem reverse_flips_direction_partial (pts : List Point) (hm : noMove pts = tr
   · unfold absR
     split_ifs <;> linarith
 
-/-- Reversing keeps `controlPointBounds` (closed contours with an on-curve point). -/
-theorem reverse_keeps_control_bounds (pts : List Point) (hm : noMove pts = true) (herr : drawErr pts = none)
+/-- Reversing keeps `controlPointBounds` — proved, like the area law, for closed contours with an
+on-curve point (the other shapes: validated by the harness only). -/
+theorem reverse_keeps_control_bounds_partial (pts : List Point) (hm : noMove pts = true) (herr : drawErr pts = none)
     (hon : hasOn pts = true) (h2 : 2 ≤ pts.length) (hclosed : isOpen pts = false) :
     freshCpb (reversePoints pts) = freshCpb pts := by
   have hshape : ReversibleShape pts := Or.inl ⟨hclosed, hm⟩
@@ -436,6 +437,15 @@ theorem topMargin_law (o : CurveOracle) (w : World) (g : Glyph) (b : Box) (v old
   obtain ⟨h1, h2, h3⟩ := setTopMargin_law g1 b v old hold
   refine ⟨?_, h1, h2, h3, hw⟩
   rw [Glyph.getBounds_congr o w g1 g2 hc hk, Glyph.getBounds_idem, hb]
+
+/-- Remark (finding F26, property C02 — recorded there, no C17 law is broken by it): assigning the
+bottom margin its current value still creates a vertical origin when the glyph had none; all four
+margins, width and height read back unchanged. -/
+theorem bottomMargin_same_value_creates_vertical_origin (g : Glyph) (b : Box) (h : g.vo = none) :
+    let g2 := setBottomMargin g (some b) b.yMin
+    g2.vo = some g.height ∧ g2.height = g.height ∧ g2.width = g.width ∧
+    bottomMarginOf g2 (some b) = bottomMarginOf g (some b) ∧ topMarginOf g2 (some b) = topMarginOf g (some b) := by
+  simp [setBottomMargin, bottomMarginOf, topMarginOf, h]
 
 /-- A glyph without outline has no margins, and the setters leave it alone. -/
 theorem margins_of_empty_outline (g : Glyph) (v : Rat) :
